@@ -276,6 +276,101 @@ Theorem C17_reload_other_order_default_rm_domains :
 Proof. exact reload_other_order_default_dom. Qed.
 Print Assumptions C17_reload_other_order_default_rm_domains.
 
+(* (8) the decision function depends only on the SET of listed rules and links, not on the order
+   nor on the way they were added and removed.  `hrun` (Meta.v) is the listing after a history of
+   Add / Remove calls on the ordered-set store, from the empty store.
+   (8a) same listed rules in the same order, link lists with the same members (whatever the two
+   histories of AddGroupingPolicy / RemoveGroupingPolicy calls that produced them, redundant or
+   transitive links added and removed on the way): the WHOLE outcome (decision, error,
+   explanation) is the same under EVERY effect, priority effects included. *)
+Theorem C17_links_only_set :
+  forall (request rule : Type) (eftcol : rule -> eft) (blank_rule : rule) (uses_p has_eval : bool)
+         (garg link : Type) (g : list link -> garg -> bool),
+  (forall K K' a, incl K K' -> g K a = true -> g K' a = true) ->
+  forall (e : mexpr request rule garg) (ef : effect_expr) (L L' : list link) (p : list rule) (req : request),
+  (forall x, In x L <-> In x L') ->
+  decide request rule (meval request rule garg (list link) g L e) eftcol blank_rule uses_p has_eval ef p req =
+  decide request rule (meval request rule garg (list link) g L' e) eftcol blank_rule uses_p has_eval ef p req.
+Proof. exact links_only_set. Qed.
+Print Assumptions C17_links_only_set.
+
+(* the default role managers ARE functions of the link set *)
+Theorem C17_has_link_set :
+  forall (name : Type) (name_eqb : name -> name -> bool) (L L' : list (name * name)) (a : name * name),
+  (forall x, In x L <-> In x L') -> has_link name name_eqb L a = has_link name name_eqb L' a.
+Proof. exact has_link_set. Qed.
+Print Assumptions C17_has_link_set.
+
+Theorem C17_has_link_dom_set :
+  forall (name : Type) (name_eqb : name -> name -> bool) (dom : Type) (dom_eqb : dom -> dom -> bool)
+         (L L' : list (name * name * dom)) (a : name * name * dom),
+  (forall x, In x L <-> In x L') ->
+  has_link_dom name name_eqb dom dom_eqb L a = has_link_dom name name_eqb dom dom_eqb L' a.
+Proof. exact has_link_dom_set. Qed.
+Print Assumptions C17_has_link_dom_set.
+
+(* (8b) ANY two histories of add / remove calls for rules and for links that end with the same
+   sets of listed rules and of listed links: under a non-priority effect every error-free
+   decision is the same (arbitrary matcher, negation allowed). *)
+Theorem C17_history_independent :
+  forall (request rule : Type) (rule_eq_dec : forall a b : rule, {a = b} + {a <> b})
+         (eftcol : rule -> eft) (blank_rule : rule) (uses_p has_eval : bool)
+         (garg link : Type) (link_eq_dec : forall a b : link, {a = b} + {a <> b})
+         (g : list link -> garg -> bool),
+  (forall K K' a, incl K K' -> g K a = true -> g K' a = true) ->
+  forall (e : mexpr request rule garg) (ef : effect_expr)
+         (hp hp' : list (hop rule)) (hg hg' : list (hop link)) (req : request) (d d' : bool),
+  order_insensitive_effect ef = true ->
+  (forall x, In x (hrun rule rule_eq_dec hp []) <-> In x (hrun rule rule_eq_dec hp' [])) ->
+  (forall x, In x (hrun link link_eq_dec hg []) <-> In x (hrun link link_eq_dec hg' [])) ->
+  ok (decide request rule (meval request rule garg (list link) g (hrun link link_eq_dec hg []) e)
+             eftcol blank_rule uses_p has_eval ef (hrun rule rule_eq_dec hp []) req) d ->
+  ok (decide request rule (meval request rule garg (list link) g (hrun link link_eq_dec hg' []) e)
+             eftcol blank_rule uses_p has_eval ef (hrun rule rule_eq_dec hp' []) req) d' ->
+  d = d'.
+Proof. exact history_independent. Qed.
+Print Assumptions C17_history_independent.
+
+Theorem C17_history_independent_default_rm :
+  forall (request rule : Type) (rule_eq_dec : forall a b : rule, {a = b} + {a <> b})
+         (eftcol : rule -> eft) (blank_rule : rule) (uses_p has_eval : bool)
+         (name : Type) (name_eqb : name -> name -> bool)
+         (link_eq_dec : forall a b : name * name, {a = b} + {a <> b})
+         (e : mexpr request rule (name * name)) (ef : effect_expr)
+         (hp hp' : list (hop rule)) (hg hg' : list (hop (name * name))) (req : request) (d d' : bool),
+  order_insensitive_effect ef = true ->
+  (forall x, In x (hrun rule rule_eq_dec hp []) <-> In x (hrun rule rule_eq_dec hp' [])) ->
+  (forall x, In x (hrun (name * name) link_eq_dec hg []) <-> In x (hrun (name * name) link_eq_dec hg' [])) ->
+  ok (decide request rule (meval request rule (name * name) (list (name * name)) (has_link name name_eqb)
+                                 (hrun (name * name) link_eq_dec hg []) e)
+             eftcol blank_rule uses_p has_eval ef (hrun rule rule_eq_dec hp []) req) d ->
+  ok (decide request rule (meval request rule (name * name) (list (name * name)) (has_link name name_eqb)
+                                 (hrun (name * name) link_eq_dec hg' []) e)
+             eftcol blank_rule uses_p has_eval ef (hrun rule rule_eq_dec hp' []) req) d' ->
+  d = d'.
+Proof. exact history_independent_default. Qed.
+Print Assumptions C17_history_independent_default_rm.
+
+Theorem C17_history_independent_default_rm_domains :
+  forall (request rule : Type) (rule_eq_dec : forall a b : rule, {a = b} + {a <> b})
+         (eftcol : rule -> eft) (blank_rule : rule) (uses_p has_eval : bool)
+         (name : Type) (name_eqb : name -> name -> bool) (dom : Type) (dom_eqb : dom -> dom -> bool)
+         (dlink_eq_dec : forall a b : name * name * dom, {a = b} + {a <> b})
+         (e : mexpr request rule (name * name * dom)) (ef : effect_expr)
+         (hp hp' : list (hop rule)) (hg hg' : list (hop (name * name * dom))) (req : request) (d d' : bool),
+  order_insensitive_effect ef = true ->
+  (forall x, In x (hrun rule rule_eq_dec hp []) <-> In x (hrun rule rule_eq_dec hp' [])) ->
+  (forall x, In x (hrun (name * name * dom) dlink_eq_dec hg []) <-> In x (hrun (name * name * dom) dlink_eq_dec hg' [])) ->
+  ok (decide request rule (meval request rule (name * name * dom) (list (name * name * dom))
+                                 (has_link_dom name name_eqb dom dom_eqb) (hrun (name * name * dom) dlink_eq_dec hg []) e)
+             eftcol blank_rule uses_p has_eval ef (hrun rule rule_eq_dec hp []) req) d ->
+  ok (decide request rule (meval request rule (name * name * dom) (list (name * name * dom))
+                                 (has_link_dom name name_eqb dom dom_eqb) (hrun (name * name * dom) dlink_eq_dec hg' []) e)
+             eftcol blank_rule uses_p has_eval ef (hrun rule rule_eq_dec hp' []) req) d' ->
+  d = d'.
+Proof. exact history_independent_default_dom. Qed.
+Print Assumptions C17_history_independent_default_rm_domains.
+
 (* ---------- the hypotheses matter (refuted counterparts, by computation) ---------- *)
 
 (* negation above g(): with m = !g(r.sub, p.sub) adding a link revokes *)
@@ -343,3 +438,14 @@ Example C17_nonvacuous_rules :
   ok (ex_dec AllowOverride [3; 1] 2) false /\
   ok (ex_dec AllowOverride [3; 2; 1] 2) true.
 Proof. vm_compute. repeat split. Qed.
+
+(* histories: "alice -> editor, editor -> admin, alice -> admin (redundant when added), editor ->
+   admin removed" and "alice -> admin, alice -> editor" list the same link set (in different
+   orders); the request is granted after both and would not be with the direct link missing *)
+Example C17_nonvacuous_histories :
+  hrun _ ex_link_dec ex_hist_a [] = [(1, 2); (1, 3)] /\
+  hrun _ ex_link_dec ex_hist_b [] = [(1, 3); (1, 2)] /\
+  ok (ex_ldec ex_pos (hrun _ ex_link_dec ex_hist_a []) AllowOverride [5; 3] 1) true /\
+  ok (ex_ldec ex_pos (hrun _ ex_link_dec ex_hist_b []) AllowOverride [3; 5] 1) true /\
+  ok (ex_ldec ex_pos [(1, 2)] AllowOverride [5; 3] 1) false.
+Proof. exact history_nonvacuous. Qed.
